@@ -66,6 +66,54 @@ def derived_names(loop: ast.For):
     return base, derived
 
 
+def fold_directions(ctx: Ctx, idx, cm, gac, msg_loops) -> int:
+    """Semantic form of `direction-of-own-message`: the attribute expressions handed to
+    generate_class_from_struct inside each message loop are constant-folded (E5) with the loop variable
+    bound to an abstract message of each direction; exactly one of them must fold to
+    [Direction(MessageDirection.<UpperCamel(direction)>)].  Robust against moving the template into a helper."""
+    from .. import microeval
+    from ..microeval import Record, Raised
+    hm = idx.get("generator/plugins/dotnet/dotnet_helpers.py")
+    hit = microeval.Interp(hm.tree, name=hm.rel)
+    it = microeval.Interp(cm.tree, name=P_CLASSES)
+    for nm, v in hit.globals.items():
+        it.globals.setdefault(nm, v)
+    it.globals["get_type_name"] = ("host", lambda *a, **k: "SomeType")
+    n = 0
+    for loop in msg_loops:
+        lv = _targets(loop.target)[0]
+        which = dotted(loop.iter)
+        attr_lists = []
+        for c in calls_in(loop):
+            if dotted(c.func) == "generate_class_from_struct":
+                cand = [a for a in list(c.args[3:]) + [k.value for k in c.keywords] if isinstance(a, ast.List)]
+                attr_lists += cand
+        if not attr_lists:
+            raise AnalysisError(f"{P_CLASSES}: no attribute list is passed to generate_class_from_struct in the loop over {which}")
+        for d in ("clientToServer", "serverToClient", "both"):
+            want = f"[Direction(MessageDirection.{d[0].upper() + d[1:]})]"
+            msg = Record("Message", {"messageDirection": d, "method": "some/method", "params": None, "result": None,
+                                     "partialResult": None, "typeName": "SomeRequest", "documentation": None,
+                                     "since": None, "proposed": None, "deprecated": None, "registrationOptions": None})
+            env = {lv: msg, "request_name": "SomeRequest", "response_name": "SomeResponse",
+                   "partial_result_name": None, "__parent__": None}
+            folded = []
+            for lst in attr_lists:
+                for e in lst.elts:
+                    try:
+                        v = it.eval(e, env)
+                    except Raised as ex:
+                        raise AnalysisError(f"{P_CLASSES}:{e.lineno}: attribute expression raises {ex.exc_name} when folded")
+                    if isinstance(v, str):
+                        folded.append(v)
+            dirs = [v for v in folded if v.startswith("[Direction(")]
+            n += 1
+            ctx.check(dirs == [want], "direction-folded", f"generate_all_classes:{which}:{d}",
+                      f"for a message with messageDirection '{d}' in {which} the emitted class attributes fold to {dirs or folded}; "
+                      f"expected exactly {want}", P_CLASSES, loop.lineno, sample={"loop": which, "direction": d, "attributes": folded})
+    return n
+
+
 def run(ctx: Ctx):
     idx = Index(ctx.src, dirs=("generator",), extra=(P_HOOKS,))
     # ---- (1) for-target liveness, repo-wide
@@ -139,7 +187,8 @@ def run(ctx: Ctx):
                 ok = any(isinstance(fv.value, ast.Attribute) and fv.value.attr == "method" and dotted(fv.value.value) in base for fv in fvs)
                 ctx.check(ok, "verbatim-wire-data", f"generate_all_classes:{which}:LSPRequest:method",
                           "LSPRequest(\"...\") does not interpolate <loop variable>.method verbatim", P_CLASSES, js.lineno)
-    ctx.floor("metadata templates", n_templates, 4)
+    n_folded = fold_directions(ctx, idx, cm, gac, msg_loops)
+    ctx.floor("metadata templates (matched by marker or folded)", n_templates + n_folded, 4)
     # pairing: response_name/request_name derive from get_name(<loop var>)
     for loop in msg_loops:
         if dotted(loop.iter) != "spec.requests":
